@@ -112,7 +112,7 @@ Inductive ev :=
 Inductive out :=
 | OFlush (alerts : list falert)                         (* what the flush hands to the pipeline *)
 | ONotify (i : nat) (r : reason) (sent : list falert) (o : outcome)
-| OLog (i : nat) (firing resolved : list Z)
+| OLog (i : nat) (firing resolved : list Z) (ts : Z)       (* SetNotifiesStage called nflog.Log at ts *)
 | OFlushEnd (ok : bool).
 Global Instance out_eq_dec : EqDecision out. Proof. solve_decision. Defined.
 
@@ -153,13 +153,16 @@ Definition with_flight (g : group) (f : flight) : group := mkGr (gr_alerts g) (g
 Definition with_chain (f : flight) (i : nat) (c : chain) : flight :=
   mkFl (fl_tick f) (fl_start f) (fl_all f) (fl_post f) (set_nth (fl_chains f) i c) (fl_deadline f).
 
-(* the timer rule: while a live group is idle (no flush in flight), the clock cannot pass its armed deadline *)
+(* the timer rules: while a live group is idle (no flush in flight) the clock cannot pass its armed deadline
+   (the tick comes first); while a flush is in flight the clock cannot pass the flush's context deadline (the
+   chains fail and the flush ends first). *)
 Definition time_ok (s : gstate) (t : Z) : bool :=
   (s_clock s <=? t) &&
   match s_group s with
   | Some g => match gr_flight g with
               | None => t <=? Z.max (gr_deadline g) (s_clock s)
-              | Some _ => true
+              (* a flush in flight ends at its context deadline at the latest: every chain sees ctx.Done() then *)
+              | Some fl => t <=? Z.max (fl_deadline fl) (s_clock s)
               end
   | None => true
   end.
@@ -206,7 +209,7 @@ Definition step (cfg : gcfg) (s : gstate) (t : Z) (e : ev) : option (gstate * li
                     (* RetryStage: nothing to send; SetNotifiesStage still logs (clears the firing set) *)
                     Some (mkS t (Some (with_flight g (with_chain fl i (CDone true))))
                               (set_nth (s_nflog s) i (nf_log (g_retention cfg) (g_repeat cfg) t ent firing resolved)),
-                          [OLog i firing resolved])
+                          [OLog i firing resolved t])
                   else
                     let sent := if i_send_resolved ic then fl_post fl else filter (fun f => negb (f_res f)) (fl_post fl) in
                     Some (mkS t (Some (with_flight g (with_chain fl i (CRetry r sent firing resolved 0)))) (s_nflog s), [])
@@ -227,7 +230,7 @@ Definition step (cfg : gcfg) (s : gstate) (t : Z) (e : ev) : option (gstate * li
                   | OK =>
                       Some (mkS t (Some (with_flight g (with_chain fl i (CDone true))))
                                 (set_nth (s_nflog s) i (nf_log (g_retention cfg) (g_repeat cfg) t ent firing resolved)),
-                            [ONotify i r sent OK; OLog i firing resolved])
+                            [ONotify i r sent OK; OLog i firing resolved t])
                   | Recoverable =>
                       Some (mkS t (Some (with_flight g (with_chain fl i (CRetry r sent firing resolved (S n))))) (s_nflog s),
                             [ONotify i r sent Recoverable])
